@@ -192,20 +192,39 @@ void val(Out& o, T v)
 
 constexpr int SENTINEL = 7;
 
+// the observers of to_chars_result / from_chars_result (explicit operator bool, defaulted operator==)
+// must be consistent with the members; nothing is printed when they are
+template <typename R>
+void result_observers(Out& o, R const& r)
+{
+    bool good = static_cast<bool>(r) == (r.ec == etl::errc{});
+    good      = good && (r == R{r.ptr, r.ec});
+    good      = good && !(r == R{r.ptr + 1, r.ec});
+    good      = good && !(r == R{r.ptr, r.ec == etl::errc{} ? etl::errc::invalid_argument : etl::errc{}});
+    good      = good && static_cast<bool>(R{r.ptr, etl::errc{}}) && !static_cast<bool>(R{r.ptr, etl::errc::value_too_large})
+        && !static_cast<bool>(R{r.ptr, etl::errc::result_out_of_range}) && !static_cast<bool>(R{r.ptr, etl::errc::invalid_argument});
+    if (!good) { o.tok("result-observers-bad"); }
+}
+
+// set by run_case for the "<op>_d" operations: the call leaves out every defaulted argument
+bool g_default_args = false;
+
 // ---------------------------------------------------------------- to_chars
 template <typename T>
 void do_to_chars(Toks& in, Out& impl, Out& ref, bool full)
 {
-    int base        = static_cast<int>(in.num());
+    bool dflt       = g_default_args;
+    int base        = dflt ? 10 : static_cast<int>(in.num());
     std::size_t len = static_cast<std::size_t>(in.num());
     T v             = parse_val<T>(in.str());
     {
         Block b(len);
         prefill(b.data(), len);
         run_impl(impl, [&](Out& o) {
-            auto r = etl::to_chars(b.data(), b.data() + len, v, base);
+            auto r = dflt ? etl::to_chars(b.data(), b.data() + len, v) : etl::to_chars(b.data(), b.data() + len, v, base);
             o.tok(ec_name(r.ec));
             o.num(r.ptr - b.data());
+            result_observers(o, r);
             if (full) {
                 bytes(o, b.data(), len);
             } else if (r.ec == etl::errc{}) {
@@ -217,7 +236,7 @@ void do_to_chars(Toks& in, Out& impl, Out& ref, bool full)
     if (!full && base >= 2 && base <= 36) {
         Block b(len);
         prefill(b.data(), len);
-        auto r = std::to_chars(b.data(), b.data() + len, v, base);
+        auto r = dflt ? std::to_chars(b.data(), b.data() + len, v) : std::to_chars(b.data(), b.data() + len, v, base);
         ref.tok(ec_name(r.ec));
         ref.num(r.ptr - b.data());
         if (r.ec == std::errc{}) { bytes(ref, b.data(), static_cast<std::size_t>(r.ptr - b.data())); }
@@ -265,19 +284,21 @@ void do_from_integer(Toks& in, Out& impl, Out& /*ref*/, bool full)
 template <typename T>
 void do_from_chars(Toks& in, Out& impl, Out& ref)
 {
-    int base   = static_cast<int>(in.num());
+    bool dflt  = g_default_args;
+    int base   = dflt ? 10 : static_cast<int>(in.num());
     auto codes = in.list();
     Text t(codes, false);
     run_impl(impl, [&](Out& o) {
         T v    = static_cast<T>(SENTINEL);
-        auto r = etl::from_chars(t.p, t.p + t.n, v, base);
+        auto r = dflt ? etl::from_chars(t.p, t.p + t.n, v) : etl::from_chars(t.p, t.p + t.n, v, base);
         o.tok(ec_name(r.ec));
         o.num(r.ptr - t.p);
         val(o, v);
+        result_observers(o, r);
     });
     if (base >= 2 && base <= 36) {
         T v    = static_cast<T>(SENTINEL);
-        auto r = std::from_chars(t.p, t.p + t.n, v, base);
+        auto r = dflt ? std::from_chars(t.p, t.p + t.n, v) : std::from_chars(t.p, t.p + t.n, v, base);
         ref.tok(ec_name(r.ec));
         ref.num(r.ptr - t.p);
         val(ref, v);
@@ -344,16 +365,19 @@ void do_roundtrip_strto(Toks& in, Out& impl, Out& ref)
 template <typename T, bool Check>
 void do_to_integer(Toks& in, Out& impl, Out& /*ref*/)
 {
-    bool ws    = in.num() != 0;
-    bool plus  = in.num() != 0;
-    auto base  = static_cast<T>(in.num());
+    bool dflt  = g_default_args;      // to_integer<T>(str): default options (skip, check, plus) and base 10
+    bool ws    = dflt ? true : in.num() != 0;
+    bool plus  = dflt ? true : in.num() != 0;
+    auto base  = dflt ? static_cast<T>(10) : static_cast<T>(in.num());
     auto codes = in.list();
     Text t(codes, false);
     run_impl(impl, [&](Out& o) {
         using opts = etl::strings::to_integer_options;
         etl::strings::to_integer_result<T> r { };
         auto sv = etl::string_view{t.p, t.n};
-        if (ws && plus) {
+        if (dflt) {
+            r = etl::strings::to_integer<T>(sv);
+        } else if (ws && plus) {
             r = etl::strings::to_integer<T, opts{.skip_whitespace = true, .check_overflow = Check, .allow_plus_sign = true}>(sv, base);
         } else if (ws) {
             r = etl::strings::to_integer<T, opts{.skip_whitespace = true, .check_overflow = Check, .allow_plus_sign = false}>(sv, base);
@@ -507,6 +531,68 @@ void do_sto(Toks& in, Out& impl, Out& ref, EtlF etlf, StdF stdf)
     }
 }
 
+// the defaulted forms name(str) and name(str, &pos): value of the first, pos and value of the second
+template <typename R, typename Etl1, typename Etl2, typename Std1, typename Std2>
+void do_sto_default(Toks& in, Out& impl, Out& ref, Etl1 etl1, Etl2 etl2, Std1 std1, Std2 std2)
+{
+    auto codes = in.list();
+    Text t(codes, false);
+    run_impl(impl, [&](Out& o) {
+        etl::size_t pos = 99;
+        R v1            = etl1(etl::string_view{t.p, t.n});
+        R v2            = etl2(etl::string_view{t.p, t.n}, &pos);
+        o.tok("v");
+        val(o, v1);
+        val(o, v2);
+        o.num(static_cast<i64>(pos));
+    });
+    try {
+        std::size_t pos = 99;
+        R v1            = std1(std::string(t.p, t.n));
+        R v2            = std2(std::string(t.p, t.n), &pos);
+        Out r;
+        r.tok("v");
+        val(r, v1);
+        val(r, v2);
+        r.num(static_cast<i64>(pos));
+        ref = r;
+    } catch (std::exception const&) {
+    }
+}
+
+// ---------------------------------------------------------------- idiv
+// reference: truncating division in 128-bit arithmetic; min / -1 wraps for types narrower than int
+// (the division happens in int, the conversion back is modular) and is undefined from int on
+template <typename T>
+void do_idiv(Toks& in, Out& impl, Out& ref)
+{
+    T x = parse_val<T>(in.str());
+    T y = parse_val<T>(in.str());
+    run_impl(impl, [&](Out& o) {
+        // volatile: the operands must not be folded (a folded min / -1 would hide the trap)
+        T volatile vx = x;
+        T volatile vy = y;
+        auto r        = etl::idiv<T>(vx, vy);
+        o.tok("ok");
+        val(o, r.quot);
+        val(o, r.rem);
+    });
+    if (y != 0) {
+        auto q = static_cast<i128>(x) / static_cast<i128>(y);
+        auto r = static_cast<i128>(x) % static_cast<i128>(y);
+        bool fits = q >= static_cast<i128>(std::numeric_limits<T>::min()) && q <= static_cast<i128>(std::numeric_limits<T>::max());
+        if (fits) {
+            ref.tok("ok");
+            ref.big(q);
+            ref.big(r);
+        } else if (sizeof(T) < sizeof(int)) {
+            ref.tok("ok");
+            ref.big(static_cast<i128>(static_cast<T>(q)));
+            ref.big(r);
+        }
+    }
+}
+
 template <typename R, typename EtlF, typename LibF>
 void do_ato(Toks& in, Out& impl, Out& ref, EtlF etlf, LibF strto)
 {
@@ -532,14 +618,51 @@ bool vh::run_case(std::string const& opname, Toks& in, Out& impl, Out& ref)
 {
     // "<op>_ovf": the same operation on an input inside the recorded known-finding region;
     // "<op>_n": strto*/sto* called with a null end pointer / pos
-    auto op    = opname;
-    g_null_out = false;
-    for (char const* suffix : {"_ovf", "_n"}) {
+    // "<op>_d": the call leaves out every defaulted argument (base 10, default options)
+    auto op        = opname;
+    g_null_out     = false;
+    g_default_args = false;
+    for (char const* suffix : {"_ovf", "_n", "_d"}) {
         auto n = std::strlen(suffix);
         if (op.size() > n && op.compare(op.size() - n, n, suffix) == 0) {
             op.resize(op.size() - n);
             if (std::strcmp(suffix, "_n") == 0) { g_null_out = true; }
+            if (std::strcmp(suffix, "_d") == 0) { g_default_args = true; }
         }
+    }
+    if (op == "idiv") {
+        auto ty = in.str();
+        return with_type(ty, [&](auto tg) { do_idiv<typename decltype(tg)::type>(in, impl, ref); });
+    }
+    if (g_default_args) {
+        using sv  = etl::string_view;
+        using str = std::string const&;
+        if (op == "stoi") {
+            do_sto_default<int>(in, impl, ref, [](sv s) { return etl::stoi(s); }, [](sv s, etl::size_t* p) { return etl::stoi(s, p); },
+                [](str s) { return std::stoi(s); }, [](str s, std::size_t* p) { return std::stoi(s, p); });
+            return true;
+        }
+        if (op == "stol") {
+            do_sto_default<long>(in, impl, ref, [](sv s) { return etl::stol(s); }, [](sv s, etl::size_t* p) { return etl::stol(s, p); },
+                [](str s) { return std::stol(s); }, [](str s, std::size_t* p) { return std::stol(s, p); });
+            return true;
+        }
+        if (op == "stoll") {
+            do_sto_default<long long>(in, impl, ref, [](sv s) { return etl::stoll(s); }, [](sv s, etl::size_t* p) { return etl::stoll(s, p); },
+                [](str s) { return std::stoll(s); }, [](str s, std::size_t* p) { return std::stoll(s, p); });
+            return true;
+        }
+        if (op == "stoul") {
+            do_sto_default<unsigned long>(in, impl, ref, [](sv s) { return etl::stoul(s); }, [](sv s, etl::size_t* p) { return etl::stoul(s, p); },
+                [](str s) { return std::stoul(s); }, [](str s, std::size_t* p) { return std::stoul(s, p); });
+            return true;
+        }
+        if (op == "stoull") {
+            do_sto_default<unsigned long long>(in, impl, ref, [](sv s) { return etl::stoull(s); }, [](sv s, etl::size_t* p) { return etl::stoull(s, p); },
+                [](str s) { return std::stoull(s); }, [](str s, std::size_t* p) { return std::stoull(s, p); });
+            return true;
+        }
+        if (op != "to_chars" && op != "from_chars" && op != "to_integer") { return false; }
     }
     if (op == "strto_integer") {
         auto ty = in.str();
